@@ -283,7 +283,60 @@ type DocItem struct {
 	Rendered map[string]string
 }
 
-var docFlows = map[string]FlowCfg{"A": goodFlow("A", mainURL, ""), "B": goodFlow("B", "c05.test/b", ""), "C": goodFlow("C", "c05.test/c", "")}
+var docFlows = map[string]FlowCfg{"A": goodFlow("A", mainURL, ""), "B": goodFlow("B", "c05.test/b", ""), "C": goodFlow("C", "c05.test/c", ""),
+	"L": limiterFlow("L", "c05.test/l", false), "M": limiterFlow("M", mainURL, true)}
+
+// limiterFlow: the good flow plus a Limiter naming quota q1 - created with the
+// flow whether connected or not, so the configuration is accepted exactly when
+// a quota file defines q1 (extension 4: byte-level quota files with content)
+func limiterFlow(name, url string, connected bool) FlowCfg {
+	f := cloneFlow(goodFlow(name, url, ""))
+	f.Procs = append(f.Procs, lim("l"))
+	if connected {
+		f.Req = append(f.Req, p2p("b", "miss", "l"), p2s("l", "below_limit"), p2s("l", "above_limit"))
+		// b's miss edge to the stream goes: one edge per (processor, condition)
+		var req []Conn
+		for _, cn := range f.Req {
+			if cn.From.Proc != nil && cn.From.Proc.Name == "b" && cn.From.Proc.Cond == "miss" && cn.To.Stream != nil {
+				continue
+			}
+			req = append(req, cn)
+		}
+		f.Req = req
+	}
+	return f
+}
+
+// quotaByteShapes: valid YAML quota documents written as RAW BYTES (not
+// `Rendered`): the document alone, and with comments, blank lines, markers, a
+// BOM, CR LF, a second document around it.  The scanner must leave each to the
+// decoder proper (SOther); the decoder's answer (a usable quota document) is
+// handed to the model in the case's table `qdec` (tag "quota-bytes").
+func quotaByteShapes(id, url string) []shape {
+	q := "quotas:\n" + fixedQ(id, url, 1000, "")
+	return []shape{
+		{Name: "qbytes:plain", Bytes: q},
+		{Name: "qbytes:comment-before", Bytes: "# the quotas of c05\n" + q},
+		{Name: "qbytes:comment-blank-before", Bytes: "# the quotas of c05\n\n   \n#\n" + q},
+		{Name: "qbytes:blank-lines-before", Bytes: "\n\n  \n" + q},
+		{Name: "qbytes:marker-before", Bytes: "---\n" + q},
+		{Name: "qbytes:marker-comment-before", Bytes: "--- # first document\n# c\n\n" + q},
+		{Name: "qbytes:comment-marker-before", Bytes: "# c\n\n---\n" + q},
+		{Name: "qbytes:comment-after", Bytes: q + "# end\n\n"},
+		{Name: "qbytes:end-marker-after", Bytes: q + "...\n"},
+		{Name: "qbytes:end-marker-comment-after", Bytes: q + "... # done\n# c\n\n"},
+		{Name: "qbytes:around", Bytes: "\n# before\n\n---\n# inside\n" + q + "\n# after\n...\n\n"},
+		{Name: "qbytes:trailing-comments", Bytes: strings.Replace(strings.Replace(q, "quotas:\n", "quotas: # list\n", 1), "id: "+id+"\n", "id: "+id+" # the id\n", 1)},
+		{Name: "qbytes:blank-inside", Bytes: strings.Replace(q, "    strategy:\n", "\n    # the strategy\n\n    strategy:\n", 1)},
+		{Name: "qbytes:null-document-after", Bytes: q + "---\nnull\n"},
+		{Name: "qbytes:comment-document-after", Bytes: q + "---\n# nothing\n"},
+		{Name: "qbytes:garbage-document-after", Bytes: q + "---\n[]\n"},
+		{Name: "qbytes:bom", Bytes: "\xef\xbb\xbf" + q},
+		{Name: "qbytes:bom-comment", Bytes: "\xef\xbb\xbf# c\n\n" + q},
+		{Name: "qbytes:crlf", Bytes: strings.ReplaceAll("# c\n\n"+q, "\n", "\r\n")},
+		{Name: "qbytes:no-final-newline", Bytes: "# c\n" + strings.TrimSuffix(q, "\n")},
+	}
+}
 
 func docFlowYAML(name string) string {
 	f := docFlows[name]
@@ -425,6 +478,57 @@ func doclessItems(r *c.Rng, nRandom int) []DocItem {
 		PathParams: map[string]string{"x.yml": "# disabled\n"}}, with(rA, "quotas/q.yaml", "quota"))
 	// no file at all
 	add("empty-directories", shape{Name: "none", Claimed: true}, true, RawItem{}, nil)
+	// extension 4 (audit 2, C05-2): byte-level quota files WITH content next to flows
+	// whose Limiter names the quota they define.  Not `Claimed` (the scanner leaves
+	// them to the decoder proper); the model gets the decoder's answer through the
+	// table `qdec` of the case (tag "quota-bytes").
+	goodL, goodM := docFlowYAML("L"), docFlowYAML("M")
+	rL := map[string]string{"flows/L.yaml": "flow:L"}
+	rM := map[string]string{"flows/M.yaml": "flow:M"}
+	for _, sh := range quotaByteShapes("q1", quotaHost+"/*") {
+		add("quota-bytes-limiter", sh, true, RawItem{Flows: map[string]string{"L.yaml": goodL}, Quotas: map[string]string{"q.yaml": sh.Bytes}},
+			with(rL, "quotas/q.yaml", "quota-bytes"))
+		add("quota-bytes-limiter-connected", sh, true, RawItem{Flows: map[string]string{"M.yaml": goodM}, Quotas: map[string]string{"q.yaml": sh.Bytes}},
+			with(rM, "quotas/q.yaml", "quota-bytes"))
+		add("quota-bytes-plain-flow", sh, true, RawItem{Flows: map[string]string{"A.yaml": good}, Quotas: map[string]string{"q.yaml": sh.Bytes}},
+			with(rA, "quotas/q.yaml", "quota-bytes"))
+	}
+	qb := quotaByteShapes("q1", quotaHost+"/*")
+	// the second quota file is about ANOTHER host: two files naming one host are
+	// rejected by the quota loader's own validation (qd_valid, not modelled)
+	qb2 := quotaByteShapes("q2", "c05other.test/*")
+	goodQ3 := "quotas:\n" + fixedQ("q2", "c05other.test/*", 10, "")
+	for i, sh := range []shape{qb[2], qb[10], qb[12]} {
+		other := qb2[[]int{5, 0, 9}[i]]
+		// two byte-level quota files; a byte-level one next to a rendered one (either order)
+		add("quota-bytes-two-files", sh, true, RawItem{Flows: map[string]string{"L.yaml": goodL},
+			Quotas: map[string]string{"a.yaml": sh.Bytes, "b.yaml": other.Bytes}},
+			with(rL, "quotas/a.yaml", "quota-bytes", "quotas/b.yaml", "quota-bytes"))
+		add("quota-bytes-then-rendered", sh, true, RawItem{Flows: map[string]string{"L.yaml": goodL},
+			Quotas: map[string]string{"a.yaml": sh.Bytes, "b.yaml": goodQ3}},
+			with(rL, "quotas/a.yaml", "quota-bytes", "quotas/b.yaml", "quota"))
+		add("rendered-then-quota-bytes", sh, true, RawItem{Flows: map[string]string{"L.yaml": goodL},
+			Quotas: map[string]string{"a.yaml": goodQ3, "b.yaml": sh.Bytes}},
+			with(rL, "quotas/a.yaml", "quota", "quotas/b.yaml", "quota-bytes"))
+		// ... next to a document-less quota file: the quota loader rejects (stage 4) whichever is read first
+		add("quota-bytes-then-docless", sh, true, RawItem{Flows: map[string]string{"L.yaml": goodL},
+			Quotas: map[string]string{"a.yaml": sh.Bytes, "z.yaml": "# disabled\n"}},
+			with(rL, "quotas/a.yaml", "quota-bytes"))
+		add("docless-then-quota-bytes", sh, true, RawItem{Flows: map[string]string{"L.yaml": goodL},
+			Quotas: map[string]string{"0.yaml": "--- ~\n", "a.yaml": sh.Bytes}},
+			with(rL, "quotas/a.yaml", "quota-bytes"))
+		// ... a quota file with another extension is not read: no quota defined (stage 2)
+		add("quota-bytes-other-extension", sh, true, RawItem{Flows: map[string]string{"L.yaml": goodL},
+			Quotas: map[string]string{"q.yml": sh.Bytes}}, rL)
+	}
+	// the controls: the Limiter flow without any quota file (stage 2), next to a
+	// document-less one (stage 4), next to a rendered one (accepted)
+	ctl := shape{Name: "qbytes:control"}
+	add("limiter-no-quota-file", ctl, true, RawItem{Flows: map[string]string{"L.yaml": goodL}}, rL)
+	add("limiter-docless-quota-file", shape{Name: "qbytes:control-docless", Bytes: "# disabled\n", Claimed: true}, true,
+		RawItem{Flows: map[string]string{"L.yaml": goodL}, Quotas: map[string]string{"q.yaml": "# disabled\n"}}, rL)
+	add("limiter-rendered-quota-file", ctl, true, RawItem{Flows: map[string]string{"L.yaml": goodL}, Quotas: map[string]string{"q.yaml": goodQ}},
+		with(rL, "quotas/q.yaml", "quota"))
 	return out
 }
 
@@ -455,6 +559,7 @@ func filesCode(r *JobResult) int64 {
 // four directories in the order the loader reads them (lexical), bytes unless rendered
 func (it *DocItem) coqFiles(code int64) string {
 	n := &names{newInterner(), newInterner()}
+	var qdec []string
 	dir := func(name string, files map[string]string, exts []string, rendered func(tag string) string) string {
 		var terms []string
 		for _, fn := range sortedKeys(files) {
@@ -467,7 +572,13 @@ func (it *DocItem) coqFiles(code int64) string {
 			if !ok {
 				continue
 			}
-			if tag, isR := it.Rendered[name+"/"+fn]; isR {
+			if tag, isR := it.Rendered[name+"/"+fn]; isR && tag == "quota-bytes" {
+				// a byte-level quota file with content: bytes for the model, the
+				// decoder's answer (a usable quota document) in the table qdec
+				b := c.Bytes(string(fileBytes(files[fn])))
+				terms = append(terms, "(Bytes "+b+")")
+				qdec = append(qdec, "("+b+", QD true true)")
+			} else if isR {
 				terms = append(terms, "(Rendered "+rendered(tag)+")")
 			} else {
 				terms = append(terms, "(Bytes "+c.Bytes(string(fileBytes(files[fn])))+")")
@@ -484,7 +595,7 @@ func (it *DocItem) coqFiles(code int64) string {
 		return n.flowCoq(&f)
 	})
 	ds := dir("processors", it.ProcDefs, []string{".yaml", ".yml"}, func(string) string { return "DDef" })
-	return "(FilesCase " + qs + " " + ps + " " + fs + " " + ds + " " + c.B(it.Shape.Claimed) + " " + c.Z(code) + ")"
+	return "(FilesCase " + qs + " " + ps + " " + fs + " " + ds + " " + c.B(it.Shape.Claimed) + " " + c.Z(code) + " " + c.List(qdec) + ")"
 }
 
 func gatewayFlows() map[string]string {
@@ -570,7 +681,7 @@ func runDocless(o *c.Out, items []DocItem) {
 		idx := -1
 		if it.Modelled {
 			lo.Code = filesCode(r)
-			idx = o.Case("files", it.coqFiles(lo.Code), k, it.Shape.Claimed && len(it.Shape.Bytes) > 0)
+			idx = o.Case("files", it.coqFiles(lo.Code), k, (it.Shape.Claimed && len(it.Shape.Bytes) > 0) || strings.HasPrefix(it.Shape.Name, "qbytes:"))
 		} else {
 			o.Case0(k, r.Accepted)
 		}
